@@ -118,6 +118,12 @@ TYPE_RULES = [
     ("int[]", "null", "la", "array<-null"), ("float[]", "la", "lfa", "float[]<-int[]"),
     ("int[]", "li", "la", "array<-int"), ("string", "lo", "\"t\"", "string<-object"),
     ("float", "lz", "2.5f", "float<-boolean"), ("long", "ls", "3L", "long<-string"),
+    # the type of an arithmetic expression follows the documented promotion (int < long < float)
+    ("int", "li + ll", "li + li", "int<-int+long"), ("int", "ll * li", "li * li", "int<-long*int"),
+    ("int", "li - ll", "li - li", "int<-int-long"), ("int", "li % ll", "li % li", "int<-int%long"),
+    ("int", "li + lf", "li + li", "int<-int+float"), ("long", "ll * lf", "ll * li", "long<-long*float|long*int-ok"),
+    ("int", "-ll", "-li", "int<-neg-long"), ("int", "(li + (ll))", "(li + (li))", "int<-paren-int+long"),
+    ("boolean", "li + li", "li < li", "boolean<-sum|comparison-ok"), ("int", "li < ll", "li + li", "int<-comparison"),
     # the value of an assignment expression has the type of its target
     ("int", "(lf = 2.5f)", "(li = 3)", "int<-assign-expr:float"),
     ("float", "(li = 3)", "(lf = 2.5f)", "float<-assign-expr:int"),
